@@ -184,7 +184,12 @@ func (g *c03Gen) scalar() interface{} {
 }
 
 func (g *c03Gen) keyVal() interface{} {
-	switch g.r.Intn(10) {
+	switch g.r.Intn(12) {
+	case 11:
+		if g.r.Chance(0.3) {
+			return nil // a nil key field (nullable scalar key)
+		}
+		return int64(10)
 	case 0:
 		return "k" + strconv.Itoa(g.r.Intn(4))
 	default:
@@ -367,6 +372,8 @@ type c03Case struct {
 }
 
 type c03JSJob struct {
+	modelJS interface{}
+	in      *c03Intern
 	c    c03Case
 	prev interface{}
 	d    interface{}
@@ -489,7 +496,7 @@ func c03One(c *Ctx, m *Model, cs c03Case, js *[]c03JSJob) {
 	if Canon(in.encData(specV)) != Canon(resp["spec"]) {
 		rep.Fail("impl_ne_model", kf, cs, map[string]interface{}{"what": "StripKey differs from model strip", "impl": in.encData(specV), "model": resp["spec"]})
 	}
-	*js = append(*js, c03JSJob{c: cs, prev: prev, d: wire, spec: spec, has: implDelta != nil})
+	*js = append(*js, c03JSJob{c: cs, prev: prev, d: wire, spec: spec, has: implDelta != nil, modelJS: resp["mergedJs"], in: in})
 
 	// histogram
 	switch d := wire.(type) {
@@ -574,6 +581,19 @@ func c03RunJS(c *Ctx, jobs []c03JSJob) {
 		got := "error"
 		if _, bad := r["err"]; !bad {
 			got = Canon(r["ok"])
+		}
+		var implEnc interface{} = "err"
+		if _, bad := r["err"]; !bad {
+			implEnc = map[string]interface{}{"ok": jobs[i].in.encData(r["ok"])}
+		}
+		mj := jobs[i].modelJS
+		if mm, ok := mj.(map[string]interface{}); ok {
+			if _, isErr := mm["err"]; isErr {
+				mj = "err"
+			}
+		}
+		if Canon(implEnc) != Canon(mj) {
+			rep.Fail("impl_ne_model", []string{}, jobs[i].c, map[string]interface{}{"what": "merge.ts result differs from model mergeJs", "impl": implEnc, "model": mj, "delta": jobs[i].d})
 		}
 		if got != jobs[i].spec {
 			rep.Fail("impl_ne_spec", []string{}, jobs[i].c, map[string]interface{}{"what": "merge.ts(strip old, Diff(old,new)) != strip new", "delta": jobs[i].d, "merged_js": r, "spec": jobs[i].spec})
@@ -661,6 +681,8 @@ func c03Corpus() []c03Case {
 		{a(i(7), i(-1)), a(i(-1), i(7))},                                                 // merge.ts: merged[x] === -1
 		{a(o("__key", i(10), "a", "bob"), o("__key", i(13), "a", "alice")), a(o("__key", i(13), "a", "alice"), o("__key", i(10), "a", "bob", "b", i(23)))},
 		{o("a", []byte{1, 2}), o("a", []byte{1, 3})},
+		{o("__key", nil, "a", i(1)), o("a", i(1))}, // nil __key disappears
+		{o("a", i(1)), o("__key", nil, "a", i(1))}, // nil __key appears
 	}
 }
 
